@@ -1,10 +1,61 @@
 (* C02 — gsync: waiters released at zero, consistent at rest, Wait never blocks.
-   Property theorems only (see C01.v for the files involved).                               *)
+   Property theorems only (see C01.v for the files involved).  "At rest" = no Add/Inc/Dec call
+   in flight: [adds_in_flight (tr cf) = []]; [sum_deltas] = sum of the deltas of all Add calls
+   made so far; [handed_out] = the channels Wait has returned so far.                        *)
 From Coq Require Import List Arith ZArith Bool.
 From GT Require Import Base.Conc.
-From GT Require Import WGModel WGSpec WGRefute.
+From GT Require Import WGModel WGSpec WGInv WGProofs WGRefute.
 Import ListNotations.
 Local Open Scope Z_scope.
+
+(* whenever all Add/Inc/Dec calls have returned: Count = sum of deltas; at zero every channel
+   ever handed out is closed; above zero a fresh Wait (run solo: call + one load) returns a
+   channel that is still open.  Any number of goroutines, any programs, any schedule; the
+   side condition "count never driven negative" is not even needed. *)
+Theorem C02_rest : forall progs sched,
+  let cf := wg_exec progs sched in
+  adds_in_flight (tr cf) = [] ->
+  cnt (sh cf) = sum_deltas (tr cf) /\
+  (sum_deltas (tr cf) = 0 -> forall x, In x (handed_out (tr cf)) -> In x (closed (sh cf))) /\
+  (0 < sum_deltas (tr cf) -> forall tid todo,
+     nth_error (thr cf) tid = Some (Idle (CWait :: todo)) ->
+     exists x, solo_wait_result cf tid = Some x /\ ~ In x (closed (sh (wg_solo cf tid 2)))).
+Proof.
+  intros progs sched cf Hrest. pose proof (Inv_exec progs sched) as HI. fold cf in HI.
+  split; [apply rest_count; auto|]. split.
+  - apply rest_zero_closed; auto.
+  - apply rest_positive_open; auto.
+Qed.
+
+(* Count() is a single load returning that count *)
+Theorem C02_count_call : forall cf tid todo,
+  nth_error (thr cf) tid = Some (Idle (CCount :: todo)) ->
+  exists o st rest, tr (wg_solo cf tid 2)
+    = Item tid (ERet CCount (RInt (cnt (sh cf)))) o st :: rest.
+Proof. exact solo_count. Qed.
+
+(* Wait returns as soon as it is scheduled: K = 1 micro-step for a goroutine inside Wait,
+   whatever the other goroutines are doing (in particular with no Add in flight) *)
+Theorem C02_wait_bounded : forall cf, wg_reachable cf ->
+  forall tid l todo, nth_error (thr cf) tid = Some (Run CWait l todo) ->
+  exists x o st, tr (wg_solo cf tid 1) = Item tid (ERet CWait (RChan x)) o st :: tr cf.
+Proof. exact wait_bounded. Qed.
+
+(* and two micro-steps (call, load) from before the call; it returns the installed channel *)
+Theorem C02_wait_from_call : forall cf tid todo,
+  nth_error (thr cf) tid = Some (Idle (CWait :: todo)) ->
+  solo_wait_result cf tid = Some (chn (sh cf)) /\ sh (wg_solo cf tid 2) = sh cf /\
+  nth_error (thr (wg_solo cf tid 2)) tid = Some (Idle todo).
+Proof. exact solo_wait_fresh. Qed.
+
+(* non-vacuity: a reachable state at rest after a decrement overlapping an increment (T0's
+   first CAS fails and is retried): count 1 = sum of deltas, a fresh Wait gets the open
+   channel 1 *)
+Example C02_example :
+  let cf := wg_exec c02_witness_progs [0; 0; 0; 0; 0; 1; 1; 1; 0; 0; 0]%nat in
+  adds_in_flight (tr cf) = [] /\ sum_deltas (tr cf) = 1 /\ cnt (sh cf) = 1 /\
+  solo_wait_result cf 2 = Some 1%nat /\ closed (sh cf) = [0%nat].
+Proof. vm_compute. repeat split; reflexivity. Qed.
 
 (* the pinned code violates the statement: after a schedule of 2 goroutines every Add has
    returned, Count() = sum of deltas = 1, yet the closed sentinel is installed and a fresh Wait
@@ -24,5 +75,9 @@ Theorem C02_orig_refuted_monitor : exists progs sched,
   well_behaved (tr (wgo_exec progs sched)) = true /\ c02_ok (tr (wgo_exec progs sched)) = false.
 Proof. eexists _, _. exact c02_orig_refuted_trace. Qed.
 
+Print Assumptions C02_rest.
+Print Assumptions C02_count_call.
+Print Assumptions C02_wait_bounded.
+Print Assumptions C02_wait_from_call.
 Print Assumptions C02_orig_refuted.
 Print Assumptions C02_orig_refuted_monitor.
